@@ -199,7 +199,8 @@ class RealBook:
 
     def external_add(self, n, garbage=False):
         with open(os.path.join(self.blob_dir, self.hashes[n]), 'wb') as f:
-            f.write(b'not the content' if garbage else self.content[n])
+            # 'empty': what a crash right after the file was created leaves behind (a file all the same)
+            f.write(b'' if garbage == 'empty' else b'not the content' if garbage else self.content[n])
 
     # -- observation (the property's own observation points)
     def observe(self):
@@ -240,7 +241,7 @@ def apply(rb, act):
     elif name == 'ExternalRemove':
         rb.external_remove(act[1])
     elif name == 'ExternalAdd':
-        rb.external_add(act[1], garbage=rb.rng.random() < 0.3)
+        rb.external_add(act[1], garbage=rb.rng.choice([False] * 6 + [True] * 3 + ['empty']))
     elif name == 'Crash':
         rb.crash()
     elif name == 'Stop':
